@@ -511,3 +511,29 @@ Definition is_match_ref (A : nfa) (h : hay) : res bool :=
 (* group 0 gets the overall span, as the Go engines report it *)
 Definition caps_of (s e : nat) (sl : slots) : slots :=
   set_nth (set_nth sl 0 (Z.of_nat s)) 1 (Z.of_nat e).
+
+(* ------------------------------------------------------------------ leftmost-longest and
+   the set of all match ends from one start (reference quantities for the longest mode and
+   for reverse searches; Backtrack.ref_search_at true is the same loop) *)
+Definition explore_from (fuel : nat) (A : nfa) (h : hay) (s : nat) : res (option nat) * PositiveSet.t :=
+  dfsl A h PositiveSet.t (pmem (nstates A)) (padd (nstates A)) fuel (start_anch A) s PositiveSet.empty.
+
+Fixpoint find_longest_loop (fuel : nat) (A : nfa) (h : hay) (n : nat) (s : nat) : res (option (nat * nat)) :=
+  match fst (explore_from fuel A h s) with
+  | OutOfFuel => OutOfFuel
+  | Done (Some e) => Done (Some (s, e))
+  | Done None => match n with 0 => Done None | S n' => find_longest_loop fuel A h n' (S s) end
+  end.
+
+Definition find_at_longest (A : nfa) (h : hay) (at_ : nat) : res (option (nat * nat)) :=
+  if length h <? at_ then Done None else find_longest_loop (fuel_for A h) A h (length h - at_) at_.
+
+(* all e such that some path from (start_anch, s) reaches a Match state at e *)
+Definition match_ends (A : nfa) (h : hay) (s : nat) : res (list nat) :=
+  match explore_from (fuel_for A h) A h s with
+  | (OutOfFuel, _) => OutOfFuel
+  | (Done _, V) =>
+      let n := nstates A in
+      let ms := filter (fun q => match nth_error (states A) q with Some st => is_match_state st | None => false end) (seq 0 n) in
+      Done (filter (fun p => existsb (fun q => pmem n q p V) ms) (seq s (length h - s + 1)))
+  end.
